@@ -955,7 +955,9 @@ def inline_methods_by_name(index: RepoIndex, expr: ast.AST, depth: int = 3,
             if e is None or len(params) != 1:
                 return a
             out = _SubstNames({params[0]: a.value}).visit(copy.deepcopy(e))
-            return inline_methods_by_name(index, out, depth - 1, exclude)
+            # the body of the property is not read through the same property again: a field
+            # of the same name on what it returns (`TABLE[self].dtype`) is another attribute
+            return inline_methods_by_name(index, out, depth - 1, tuple(exclude) + (a.attr,))
     return ast.fix_missing_locations(T().visit(copy.deepcopy(expr)))
 
 
